@@ -74,6 +74,10 @@ template <class Table> void table_ops(Table &t, std::istringstream &in, std::ost
 }
 } // namespace
 
+// the array below a middle array, reduced to what BitPackedMiddle reads from it: its insert index (so that next pointers of 32..56 bits
+// can be exercised without allocating 2^31 records)
+struct FakeNext : public lm::ngram::trie::BitPacked { FakeNext() { insert_index_ = 0; } void Set(uint64_t v) { insert_index_ = v; } };
+
 int main() {
   std::string line;
   while (std::getline(std::cin, line)) {
@@ -183,23 +187,27 @@ int main() {
       }
       lm::ngram::Config config; config.pointer_bhiksha_bits = hx(bb);
       const size_t guard = 32;
-      uint64_t lsize = lm::ngram::trie::BitPackedLongest::Size(0, total_children, max_vocab);
+      const bool real_longest = total_children <= (1ULL << 22);
+      uint64_t lsize = lm::ngram::trie::BitPackedLongest::Size(0, real_longest ? total_children : 0, max_vocab);
       std::vector<unsigned char> lmem(lsize + guard, 0);
       lm::ngram::trie::BitPackedLongest longest; longest.Init(&lmem[0], 0, max_vocab);
+      FakeNext fake;
+      const lm::ngram::trie::BitPacked &below = real_longest ? static_cast<const lm::ngram::trie::BitPacked&>(longest) : static_cast<const lm::ngram::trie::BitPacked&>(fake);
       uint64_t size; std::vector<unsigned char> mem;
       std::vector<std::string> got(recs.size());
       if (kind == "A") {
         typedef lm::ngram::trie::BitPackedMiddle<lm::ngram::trie::ArrayBhiksha> Mid;
         size = Mid::Size(quant, recs.size(), max_vocab, total_children, config);
         mem.assign(size + guard, 0); for (size_t i = 0; i < guard; ++i) mem[size + i] = 0xa5;
-        Mid mid(&mem[0], quant, recs.size(), max_vocab, total_children, longest, config);
+        Mid mid(&mem[0], quant, recs.size(), max_vocab, total_children, below, config);
         uint64_t child = 0;
         for (size_t i = 0; i < recs.size(); ++i) {
           util::BitAddress a = mid.Insert(recs[i][0]);
           util::WriteInt57(a.base, a.offset, quant, recs[i][1]);
-          for (uint64_t c = 0; c < recs[i][2]; ++c) longest.Insert((child++) % (max_vocab + 1));
+          if (real_longest) { for (uint64_t c = 0; c < recs[i][2]; ++c) longest.Insert((child++) % (max_vocab + 1)); }
+          else { child += recs[i][2]; fake.Set(child); }
         }
-        mid.FinishedLoading(longest.InsertIndex(), config);
+        mid.FinishedLoading(below.InsertIndex(), config);
         for (size_t i = 0; i < recs.size(); ++i) {
           lm::ngram::trie::NodeRange range; range.begin = 0; range.end = recs.size(); uint64_t ptr = 0;
           util::BitAddress a = mid.Find(recs[i][0], range, ptr);
@@ -211,14 +219,15 @@ int main() {
         typedef lm::ngram::trie::BitPackedMiddle<lm::ngram::trie::DontBhiksha> Mid;
         size = Mid::Size(quant, recs.size(), max_vocab, total_children, config);
         mem.assign(size + guard, 0); for (size_t i = 0; i < guard; ++i) mem[size + i] = 0xa5;
-        Mid mid(&mem[0], quant, recs.size(), max_vocab, total_children, longest, config);
+        Mid mid(&mem[0], quant, recs.size(), max_vocab, total_children, below, config);
         uint64_t child = 0;
         for (size_t i = 0; i < recs.size(); ++i) {
           util::BitAddress a = mid.Insert(recs[i][0]);
           util::WriteInt57(a.base, a.offset, quant, recs[i][1]);
-          for (uint64_t c = 0; c < recs[i][2]; ++c) longest.Insert((child++) % (max_vocab + 1));
+          if (real_longest) { for (uint64_t c = 0; c < recs[i][2]; ++c) longest.Insert((child++) % (max_vocab + 1)); }
+          else { child += recs[i][2]; fake.Set(child); }
         }
-        mid.FinishedLoading(longest.InsertIndex(), config);
+        mid.FinishedLoading(below.InsertIndex(), config);
         for (size_t i = 0; i < recs.size(); ++i) {
           lm::ngram::trie::NodeRange range; range.begin = 0; range.end = recs.size(); uint64_t ptr = 0;
           util::BitAddress a = mid.Find(recs[i][0], range, ptr);
